@@ -17,9 +17,19 @@
       `computeNextState` bookkeeping: Lemmas/V1Follow.lean); `next_step_is_flow_statement_partial` is the
       slide-level core of it and also holds inside programs with subflow calls;
     * `history_function` — the model's decision is a function of (history, flow configs) only.
-  What is NOT carried by a theorem (correspondence + oracle only): several flow configs at once (competing
-  flows, interruption / abort / resume between flows), subflow calls (`do`) inside `computeNextState`, extension
-  flows, priorities, `hide_prev_turn`, and everything the widened model executes for llm_flows.co.
+  Phase 4 (further down in this file):
+    * `slide_with_subflows_simulates`, `do_returns_after_call`, `resume_unwinds_stack` — subflow calls follow the structured
+      call / return discipline (`V1Struct.runS`, `V1Ref.unwindS`) at any nesting depth, for any order of the flow-state list;
+    * `next_step_is_flow_statement_with_do` — the lift of `next_step_is_flow_statement` to a dialog flow with `do` calls of
+      subflows that may block and call further subflows, for every history that follows the flow through its callees
+      (`next_step_is_flow_statement_do_partial`: the uid-free special case of callees that do not block);
+    * `decision_rule_max_priority`, `best_is_first_max`, `waiting_flow_yields`, `aborted_never_decides`,
+      `interrupted_flow_keeps_position`, `interruption_resumes_own_statement` — several flows, function level, arbitrary lists;
+    * `run_follows_program`, `gen_fuel_suffices` — the action loop `generate_events` (`V1Run`);
+    * `mutation_benign` — `slide`'s writes into the shared element dicts are invisible to every later decision (`V1Mut`).
+  What is NOT carried by a theorem (function-level theorems + correspondence + oracle only): histories with several dialog
+  flows (interruption by another dialog flow, abort, extension flows, priorities), `hide_prev_turn`, `bot stop`, and
+  everything the widened model executes for llm_flows.co.
 -/
 import NemoVerif.Lemmas.V1Struct
 import NemoVerif.Lemmas.V1Follow
@@ -837,6 +847,84 @@ example :
       = some ([], ["s", "main"]) ∧
     (followAllK exLib "main" exMain "hi" 20 { ctx := [], ctr := 0, stk := [], dec := [] } [.userIntent "hi", .userIntent "u1"]).map (fun S => (S.dec, S.stk.map (·.name)))
       = some ([.bot "bye"], ["main"]) := by
+  decide
+
+
+/-! ## Phase 4 (3b): the action loop on a flow with subflow calls -/
+
+theorem next_events_follow_do (cfgs : Cfgs) (id : String) (p : Prog) (lib : Lib) (fS : Nat) (oracle : Oracle)
+    (hS : SetupK cfgs id p lib) (hshape : (match p with | .step (.user _) _ => true | _ => false) = true)
+    (events : List REvent) (S : SK)
+    (hf : followAllK lib id p (startIntent p) fS { ctx := [], ctr := 0, stk := [], dec := [] } (events.map REvent.toEvent) = some S) :
+    nextEvents cfgs oracle [] events = none ∨ nextEvents cfgs oracle [] events = refNextK oracle S events := by
+  have key := next_step_is_flow_statement_with_do cfgs id p lib fS (events.map REvent.toEvent) S hS hshape hf
+  simp only [nextEvents, refNextK]
+  cases events.getLast? with
+  | none => left; rfl
+  | some e =>
+    cases e with
+    | start n ps rk => right; rfl
+    | ev e =>
+      cases e with
+      | hidePrevTurn => right; rfl
+      | userIntent i => rcases key with h | h <;> simp [h]
+      | botIntent i => rcases key with h | h <;> simp [h]
+      | actionFinished n ok => rcases key with h | h <;> simp [h]
+      | contextUpdate d => rcases key with h | h <;> simp [h]
+      | startAction => rcases key with h | h <;> simp [h]
+      | other ty ps => rcases key with h | h <;> simp [h]
+
+/-- **run_follows_program_with_do.**  `run_follows_program` for a dialog flow with subflow calls (callees may block, any
+    nesting depth; setting `SetupK`): the loop of `generate_events` produces, for every action oracle, exactly the events of
+    the source-level turn `refLoopK`, whose decisions are read off the structured stack state of `followAllK` — the statements
+    of the innermost running flow, after a callee's last statement the statement after the `do` — or the model's fuel ran out. -/
+theorem run_follows_program_with_do (cfgs : Cfgs) (id : String) (p : Prog) (lib : Lib) (fS : Nat) (oracle : Oracle)
+    (hS : SetupK cfgs id p lib) (hshape : (match p with | .step (.user _) _ => true | _ => false) = true) :
+    ∀ (n : Nat) (events new out : List REvent) (S : SK),
+      followAllK lib id p (startIntent p) fS { ctx := [], ctr := 0, stk := [], dec := [] } (events.map REvent.toEvent) = some S →
+      refLoopK lib id p (startIntent p) fS oracle n S events new = some out →
+      genLoop cfgs oracle [] n events new = none ∨ genLoop cfgs oracle [] n events new = some out := by
+  intro n
+  induction n with
+  | zero => intro events new out S _ h; simp [refLoopK] at h
+  | succ n ih =>
+    intro events new out S hf hout
+    simp only [refLoopK] at hout
+    simp only [genLoop]
+    rcases next_events_follow_do cfgs id p lib fS oracle hS hshape events S hf with h | h
+    · left; simp [h]
+    · rw [h]
+      cases hr : refNextK oracle S events with
+      | none => simp [hr] at hout
+      | some nx =>
+        simp only [hr] at hout ⊢
+        generalize (if nx.isEmpty = true then [listen] else nx) = nx' at hout ⊢
+        by_cases h1 : ((nx'.getLast?.map REvent.isListen).getD false) = true
+        · simp only [h1, if_true] at hout ⊢
+          right; exact hout
+        · simp only [h1, Bool.false_eq_true, if_false] at hout ⊢
+          by_cases h2 : (new ++ nx').length > 100
+          · simp only [h2, if_true] at hout ⊢
+            right; exact hout
+          · simp only [h2, if_false] at hout ⊢
+            cases hfa : followAllK lib id p (startIntent p) fS S (nx'.map REvent.toEvent) with
+            | none => rw [hfa] at hout; cases hout
+            | some S' =>
+              rw [hfa] at hout
+              refine ih _ _ out S' ?_ hout
+              rw [List.map_append, followAllK_append lib id p _ fS _ _ _ S hf]
+              exact hfa
+
+/-- non-vacuity (finite fact): `main = user hi / do s / bot bye`, `s = user u1`: the turn after `user hi` decides nothing
+    (the callee waits: `Listen`); the turn after `user u1` decides `bot bye` and then nothing. -/
+example :
+    let oracle : Oracle := fun _ _ _ => {}
+    let ev1 : List REvent := [.ev (.userIntent "hi")]
+    let ev2 : List REvent := [.ev (.userIntent "hi"), listen, .ev (.userIntent "u1")]
+    (followAllK exLib "main" exMain "hi" 20 { ctx := [], ctr := 0, stk := [], dec := [] } (ev1.map REvent.toEvent)).bind
+      (fun S => refLoopK exLib "main" exMain "hi" 20 oracle 10 S ev1 []) = some [listen] ∧
+    (followAllK exLib "main" exMain "hi" 20 { ctx := [], ctr := 0, stk := [], dec := [] } (ev2.map REvent.toEvent)).bind
+      (fun S => refLoopK exLib "main" exMain "hi" 20 oracle 10 S ev2 []) = some [.ev (.botIntent "bye"), listen] := by
   decide
 
 end NemoVerif.C14
